@@ -332,9 +332,9 @@ def run(rep, tier, seed, only=None):
     thorough = tier == "thorough"
     rep.functions = ["cirbo.sat.cnf.tseytin.tseytin_transformation and every _process_* template", "cirbo.sat.cnf.Cnf.from_circuit",
                      "cirbo.sat.sat.is_satisfiable / is_circuit_satisfiable (solver = stub)"]
-    rep.bounds = {"template arity": "<= 6", "circuits": "feature family + seeded <= 5 inputs / <= 10 gates (quick), <= 6 / <= 14 (thorough); deep reconvergent circuits of 405 and 520 gates (quick), 401..1500 gates (thorough)",
+    rep.bounds = {"template arity": "2..6, 8, 11 (+13, 16, 21 for AND/OR/NAND/NOR) quick; + 9, 10, 12, 13 (32) thorough", "circuits": "feature family + seeded <= 5 inputs / <= 10 gates (quick), <= 6 / <= 14 (thorough); deep reconvergent circuits of 405 and 520 gates (quick), 401..1500 gates (thorough)",
                   "output selections": "None, [0], repeated, reversed, random, []"}
-    rep.outside = ["arities > 6", "the real PySAT solvers (environment stub is used; contract: sound and complete)"]
+    rep.outside = ["arities other than the listed ones", "the real PySAT solvers (environment stub is used; contract: sound and complete)"]
     rep.rule = "case = (circuit, output selection); z3 decides A/B/C over all inputs and all CNF variables; mapping gate<->variable derived by entailment"
     rep.explanation = ("CNF from the real code is a z3 formula; A (soundness), B (completeness with the evaluated values as witness) and "
                        "C (uniqueness of the extension) are unsat for every case; input i is variable i+1 by construction of the queries.")
@@ -342,7 +342,7 @@ def run(rep, tier, seed, only=None):
     items = []
     if sub("template"):
         for t in circgen.ALL_TYPES:
-            ar = [1] if t in circgen.UNARY else [2] if t in circgen.BINARY_ONLY else list(range(2, 7)) if t in circgen.NARY else [0]
+            ar = [1] if t in circgen.UNARY else [2] if t in circgen.BINARY_ONLY else (list(range(2, 7)) + ([8, 11] if t.name in ('XOR', 'NXOR') else [8, 11, 13, 16, 21]) + (([9, 10, 12, 13] if t.name in ('XOR', 'NXOR') else [9, 10, 12, 32]) if thorough else [])) if t in circgen.NARY else [0]
             items += [("template", (t.name, k)) for k in ar]
     if sub("feature"):
         items.append(("feature", None))
